@@ -96,6 +96,15 @@ class Path:
             return True
         return r == z3.sat
 
+    def entails(self, cond):
+        """pc |= cond, decided by the path's solver (unknown -> False)."""
+        self.solver.push()
+        self.solver.add(z3.Not(cond))
+        self.feas_checks += 1
+        r = self.solver.check()
+        self.solver.pop()
+        return r == z3.unsat
+
     def model_says(self, cond):
         """If a model of the current pc is cached, evaluate cond in it -> True/False/None."""
         m = getattr(self, "model", None)
@@ -181,6 +190,7 @@ class Interp:
         self.inlined: set[str] = set()
         self.class_cache: dict = {}
         self.spec_total = False
+        self.await_handlers = {}
         from . import prims
         prims.install(self)
 
@@ -194,6 +204,7 @@ class Interp:
             prefix = work.pop()
             p = Path(prefix)
             self.path = p
+            zu.ORACLE[0] = p.entails
             self.frames = []
             self.depth = 0
             self.pure_mode = 0
@@ -208,6 +219,72 @@ class Interp:
             if time_budget and time.time() - t0 > time_budget:
                 raise Unsupported("path exploration exceeded its time budget")
         return results
+
+    def await_opaque(self, v):
+        h = self.builtins.get("await:" + v.name)
+        if h is not None:
+            return h.fn(self, [v], {})
+        if v.kind == "effect":
+            self.event("await:" + v.name, [v])
+            per = (v.spec or {}).get("__await__") or {}
+            ret = per.get("returns")
+            return self.make_symbolic(ret, "awaited") if ret is not None else None
+        raise Unsupported(f"await of unmodelled external {v.name}")
+
+    # -- dataclasses ------------------------------------------------------------------------------------------------
+    def dataclass_fields(self, cls):
+        import ast as _ast
+        is_dc = False
+        for c in self.mro(cls):
+            if isinstance(c, ClassInfo):
+                for d in c.node.decorator_list:
+                    nm = d.func if isinstance(d, _ast.Call) else d
+                    nm = nm.id if isinstance(nm, _ast.Name) else (nm.attr if isinstance(nm, _ast.Attribute) else "")
+                    if nm == "dataclass":
+                        is_dc = True
+        if not is_dc:
+            return None
+        fields = []
+        for c in reversed(self.mro(cls)):
+            if isinstance(c, ClassInfo):
+                for name, default, ann in c.ann_fields:
+                    if isinstance(ann, _ast.Subscript) and getattr(ann.value, "id", "") == "ClassVar":
+                        continue
+                    fields = [f for f in fields if f[0] != name]
+                    fields.append((name, default, c))
+        return fields
+
+    def dataclass_init(self, obj, fields, args, kwargs):
+        import ast as _ast
+        vals = list(args)
+        for i, (name, default, owner) in enumerate(fields):
+            if i < len(vals):
+                obj.fields[name] = vals[i]
+            elif name in kwargs:
+                obj.fields[name] = kwargs.pop(name)
+            elif default is not None:
+                fr = Frame(None, {}, owner.module, cls=owner)
+                self.frames.append(fr)
+                try:
+                    if isinstance(default, _ast.Call) and getattr(default.func, "id", "") == "field":
+                        kw = {k.arg: k.value for k in default.keywords}
+                        if "default_factory" in kw:
+                            obj.fields[name] = self.call(self.eval(kw["default_factory"]), [], {})
+                        elif "default" in kw:
+                            obj.fields[name] = self.eval(kw["default"])
+                        else:
+                            self.raise_exc("TypeError", f"missing dataclass field {name}")
+                    else:
+                        obj.fields[name] = self.eval(default)
+                finally:
+                    self.frames.pop()
+            else:
+                self.raise_exc("TypeError", f"missing dataclass field {name}")
+        if len(vals) > len(fields) or kwargs:
+            self.raise_exc("TypeError", "dataclass init arguments")
+        found, post, _ = self.class_attr_raw(obj.cls, "__post_init__")
+        if found:
+            self.call(BoundMethod(obj, post), [], {})
 
     def in_real_code(self):
         """True if the innermost executing function body comes from the repository (not a sidecar spec)."""
